@@ -107,6 +107,8 @@ impl<'a, F: Field, CS: Assignment<F> + 'a + SyncDeps> Layouter<F>
         }
 
         // Assign region cells.
+        #[cfg(feature = "verif-hooks")]
+        crate::verif::enter_region(&name);
         self.cs.enter_region(name);
         let mut region = SingleChipLayouterRegion::new(self, region_index.into());
         let result = {
